@@ -504,3 +504,9 @@ add('C05', 'lookahead-guarded-by-length *', CTXS, HASH1, "            remainder 
 add('C11', 'optimizer-cache-as-mutable-default', OPTF, [("    def __init__(self, max_length):", "    def __init__(self, max_length, tmto_lookup = []):"), (OPT_INIT, "        self.tmto_lookup = tmto_lookup\n        for i in range(len(self.tmto_lookup), self.max_length + 1):")], None, 'fire', 'C11.R13')
 add('C10', 'optimizer-cache-as-mutable-default', OPTF, [("    def __init__(self, max_length):", "    def __init__(self, max_length, tmto_lookup = []):"), (OPT_INIT, "        self.tmto_lookup = tmto_lookup\n        for i in range(len(self.tmto_lookup), self.max_length + 1):")], None, 'fire', 'C10.R16')
 add('C10', 'optimizer-none-default *', OPTF, [("    def __init__(self, max_length):", "    def __init__(self, max_length, tmto_lookup = None):"), (OPT_INIT, "        self.tmto_lookup = [] if tmto_lookup is None else tmto_lookup\n        for i in range(len(self.tmto_lookup), self.max_length + 1):")], None, 'silent')
+PGU = 'pcfg_guesser.py'
+add('C14', 'saved-skip-brute-improved', PGU, "    save_config.set(section, 'skip_brute', str(program_info['skip_brute']))", "    save_config.set(section, 'skip_brute', str(program_info['skip_brute'] and program_info['rule_name'] != 'Default'))", 'fire', 'C14.R14')
+ENC_OLD = "        ruleset_info['encoding'] = config.get('TRAINING_DATASET_DETAILS','encoding')"
+add('C17', 'utf-8-becomes-utf-8-sig', GIO, ENC_OLD, "        encoding = config.get('TRAINING_DATASET_DETAILS','encoding')\n        if encoding.lower() in ('utf-8', 'utf8'):\n            encoding = 'utf-8-sig'\n        ruleset_info['encoding'] = encoding", 'fire', 'C17.R15')
+add('C07', 'utf-8-becomes-utf-8-sig', GIO, ENC_OLD, "        encoding = config.get('TRAINING_DATASET_DETAILS','encoding')\n        if encoding.lower() in ('utf-8', 'utf8'):\n            encoding = 'utf-8-sig'\n        ruleset_info['encoding'] = encoding", 'fire', 'C07.R13')
+add('C07', 'encoding-through-a-local *', GIO, ENC_OLD, "        recorded = config.get('TRAINING_DATASET_DETAILS','encoding')\n        ruleset_info['encoding'] = recorded", 'silent')
